@@ -18,10 +18,16 @@ import (
 // by the sync paths.
 type verifInformer struct {
 	cache.SharedIndexInformer
-	synced bool
+	synced    bool
+	hasSynced func() bool // if set, overrides synced
 }
 
-func (v verifInformer) HasSynced() bool { return v.synced }
+func (v verifInformer) HasSynced() bool {
+	if v.hasSynced != nil {
+		return v.hasSynced()
+	}
+	return v.synced
+}
 
 // VerifNew builds a PolicyManager over the given handles and listers.  No informer is started; the pod informer
 // factory start (startPodInformerFactory) is turned into a no-op; podsSynced is what podCachedInformer.HasSynced
@@ -41,6 +47,17 @@ func VerifNew(client kubernetes.Interface, ipsetHandle ipset.Interface, iptableH
 		quitChan:          make(chan struct{}),
 	}
 	pm.podInformerOnce.Do(func() {})
+	return pm
+}
+
+// VerifNewLazy is VerifNew with HasSynced of the pod informer answered by the caller: the daemon starts its pod
+// informer factory only once it has seen a NetworkPolicy (syncNetworkPolices / AddPolicy), so a process that never saw
+// one reports "not synced" and syncPods lists the node's pods through the client instead of the lister.
+func VerifNewLazy(client kubernetes.Interface, ipsetHandle ipset.Interface, iptableHandle utiliptables.Interface,
+	hostName string, podLister corev1Lister.PodLister, namespaceLister corev1Lister.NamespaceLister,
+	policyLister networkingv1Lister.NetworkPolicyLister, hasSynced func() bool) *PolicyManager {
+	pm := VerifNew(client, ipsetHandle, iptableHandle, hostName, podLister, namespaceLister, policyLister, false)
+	pm.podCachedInformer = verifInformer{hasSynced: hasSynced}
 	return pm
 }
 
